@@ -134,6 +134,20 @@ func vfC09Regexp(expr string) *regexp.Regexp {
 	return re
 }
 
+// onlyThroughRegex: path satisfies the rule's url criteria through the regex and through nothing else.
+func (r vfC09Rule) onlyThroughRegex(path string) bool {
+	if r.Regex == "" || !vfC09Regexp(r.Regex).MatchString(path) {
+		return false
+	}
+	if r.Exact != "" && path == r.Exact {
+		return false
+	}
+	if r.Prefix != "" && strings.HasPrefix(path, r.Prefix) {
+		return false
+	}
+	return true
+}
+
 func (r vfC09Rule) matcherKey() string {
 	return strings.Join(r.Methods, ",") + "|" + r.Exact + "|" + r.Prefix + "|" + r.Regex
 }
@@ -256,7 +270,7 @@ var (
 
 func vfC09GenRule(rt *rapid.T, s *vfC09Spec) vfC09Rule {
 	r := vfC09Rule{Methods: rapid.SampledFrom(vfC09Methods).Draw(rt, "methods")}
-	switch rapid.IntRange(0, 7).Draw(rt, "matcher") {
+	switch rapid.IntRange(0, 9).Draw(rt, "matcher") {
 	case 0:
 		r.Exact = "/a"
 	case 1:
@@ -273,6 +287,10 @@ func vfC09GenRule(rt *rapid.T, s *vfC09Spec) vfC09Rule {
 		r.Exact, r.Regex = "/b", "^/a/[0-9]+$"
 	case 7:
 		r.Prefix, r.Exact = "/b/", "/c"
+	case 8:
+		r.Prefix, r.Regex = "/b/", "^/a/[0-9]+$"
+	case 9:
+		r.Regex = "^/(a|c)$"
 	}
 	names := []string{}
 	for _, p := range s.Policies {
@@ -313,6 +331,11 @@ func vfC09GenFilterSpec(rt *rapid.T) *vfC09Spec {
 func vfC09MutateSpec(rt *rapid.T, old *vfC09Spec) *vfC09Spec {
 	s := &vfC09Spec{Default: old.Default}
 	s.Policies = append(s.Policies, old.Policies...)
+	if rapid.IntRange(0, 3).Draw(rt, "reapplyIdentical") == 0 {
+		// the identical spec is applied again (every rule unchanged)
+		s.Rules = append(s.Rules, old.Rules...)
+		return s
+	}
 	if old.Default != "" && len(old.Policies) > 1 && rapid.IntRange(0, 2).Draw(rt, "defaultOnlySwitch") == 0 {
 		// the only change: defaultPolicyRef now names another, unchanged, existing policy
 		var others []string
@@ -393,7 +416,32 @@ func TestVerifC09FilterRules(t *testing.T) {
 		fmt.Fprintf(&hist, "spec#0:\n%s", spec.YAML())
 		nops := rapid.IntRange(5, 60).Draw(rt, "ops")
 		has429, multiMatch, carriedNZUsed, unmatched, reloads := false, false, false, 0, 0
+		regexCarriedHit := false
+		// previous generations still to be closed: Pipeline.Inherit closes the previous generation right
+		// after the new one has inherited from it; a slower owner does it some requests later
+		type vfPending struct {
+			f  *RateLimiter
+			at int
+		}
+		var pending []vfPending
+		closeDue := func(op int) {
+			keep := pending[:0]
+			for _, p := range pending {
+				if p.at <= op {
+					p.f.Close()
+					fmt.Fprintf(&hist, "close(previous generation); ")
+				} else {
+					keep = append(keep, p)
+				}
+			}
+			pending = keep
+		}
+		defer func() {
+			closeDue(1 << 30)
+			f.Close()
+		}()
 		for op := 0; op < nops; op++ {
+			closeDue(op)
 			if rapid.IntRange(0, 11).Draw(rt, "op") == 0 {
 				// reload
 				next := vfC09MutateSpec(rt, spec)
@@ -472,14 +520,56 @@ func TestVerifC09FilterRules(t *testing.T) {
 					vf.Violation(rt, key, "Inherit panicked: %s\nhistory:\n%s\nreload -> \n%s", text, hist.String(), next.YAML())
 					return
 				}
+				oldGen := f
 				f = nf
 				spec, states = next, nstates
 				reloads++
 				fmt.Fprintf(&hist, "\nreload -> spec#%d:\n%s", reloads, spec.YAML())
+				switch rapid.SampledFrom([]string{"now", "now", "now", "later", "end"}).Draw(rt, "closePrevious") {
+				case "now":
+					oldGen.Close()
+					hist.WriteString("close(previous generation); ")
+					vf.Class("filter previous generation closed right after Inherit (as Pipeline.Inherit does)")
+				case "later":
+					pending = append(pending, vfPending{oldGen, op + 1 + rapid.IntRange(1, 3).Draw(rt, "closeAfter")})
+					vf.Class("filter previous generation closed some requests later")
+				default:
+					pending = append(pending, vfPending{oldGen, 1 << 30})
+					vf.Class("filter previous generation closed at the end of the case")
+				}
 				continue
 			}
 			method := rapid.SampledFrom(vfC09ReqMethod).Draw(rt, "method")
 			path := rapid.SampledFrom(vfC09ReqPaths).Draw(rt, "path")
+			if rapid.Bool().Draw(rt, "aimAtRule") {
+				// aim at one rule: a request that this rule decides, preferably one it matches only through its regex
+				ti := rapid.IntRange(0, len(spec.Rules)-1).Draw(rt, "aimRule")
+				var cands, regexOnly [][2]string
+				for _, m := range []string{"GET", "POST", "PUT"} {
+					for _, pth := range vfC09ReqPaths {
+						fi := -1
+						for i, r := range spec.Rules {
+							if r.matches(m, pth) {
+								fi = i
+								break
+							}
+						}
+						if fi == ti {
+							cands = append(cands, [2]string{m, pth})
+							if spec.Rules[ti].onlyThroughRegex(pth) {
+								regexOnly = append(regexOnly, [2]string{m, pth})
+							}
+						}
+					}
+				}
+				if len(regexOnly) > 0 {
+					cands = regexOnly
+				}
+				if len(cands) > 0 {
+					c := cands[rapid.IntRange(0, len(cands)-1).Draw(rt, "aimRequest")]
+					method, path = c[0], c[1]
+				}
+			}
 			first, nmatch := -1, 0
 			for i, r := range spec.Rules {
 				if r.matches(method, path) {
@@ -546,6 +636,9 @@ func TestVerifC09FilterRules(t *testing.T) {
 			if st.carriedNZ {
 				carriedNZUsed = true
 			}
+			if st.carried && spec.Rules[first].onlyThroughRegex(path) {
+				regexCarriedHit = true
+			}
 			if st.ambiguous {
 				vf.Class("filter ambiguous-state-after-changed-or-duplicate-rule")
 			}
@@ -564,6 +657,9 @@ func TestVerifC09FilterRules(t *testing.T) {
 		}
 		if reloads > 0 {
 			vf.Class("filter case-has-reload")
+		}
+		if regexCarriedHit {
+			vf.Class("filter request decided, only through its regex, by a rule kept unchanged over a reload")
 		}
 		vf.Case(has429 && (multiMatch || carriedNZUsed), "filter|"+hist.String(), func() interface{} {
 			h := hist.String()
